@@ -638,9 +638,17 @@ func checkMain(args []string) int {
 
 	// ---- evidence ---------------------------------------------------------------------------
 	ev := buildEvidence(prop, *tier, seed, results, violations, knownLines, inconclusive, tracesOK, tracesBad, time.Since(t0).Seconds())
-	os.MkdirAll(filepath.Join(*verif, "evidence"), 0o755)
+	// a partial run (--only) or a run against another tree (--repo, mutation trials) must not
+	// replace the evidence of the registered check
+	evDir := filepath.Join(*verif, "evidence")
+	if d := os.Getenv("VERIF_EVIDENCE_DIR"); d != "" {
+		evDir = d
+	} else if *only != "" || *repo != "/repo" {
+		evDir = filepath.Join(os.TempDir(), "gosmt-evidence")
+	}
+	os.MkdirAll(evDir, 0o755)
 	eb, _ := json.MarshalIndent(ev, "", " ")
-	os.WriteFile(filepath.Join(*verif, "evidence", prop+".json"), eb, 0o644)
+	os.WriteFile(filepath.Join(evDir, prop+".json"), eb, 0o644)
 
 	sort.Strings(knownLines)
 	for _, l := range dedupe(knownLines) {
